@@ -118,15 +118,19 @@ Proof.
     rewrite HM, removelast_map. apply Forall_map. exact Hnl.
 Qed.
 
-(* the closed corollary: Plugin.iter itself as the aligner, no alignment hypothesis left *)
+(* the closed corollary for graphs without overlap-window nodes: Plugin.iter itself as the aligner; `nt` = every
+   data type (every given stream keeps no zero-duration chunk back at the end) *)
 Theorem results_chunking_independent_iter rn T src given g target :
-  graph_ok iter_pre rn T src given [] g ->
+  graph_ok iter_pre rn no_ovl_pre T src (fun _ => True) given [] g ->
   exists env, eval_graph align_iter given [] g = Ok env /\
     match lookup target env with
     | Some cs => exists R, lookup target (eval_whole src [] g) = Some R /\ tiles R 0 T cs
     | None => lookup target (eval_whole src [] g) = None
     end.
-Proof. exact (results_chunking_independent align_iter iter_pre rn (align_iter_ok rn) T src given g target). Qed.
+Proof.
+  exact (results_chunking_independent align_iter iter_pre rn (align_iter_ok rn) no_ovl no_ovl_pre (no_ovl_ok rn)
+           T src (fun _ => True) given g target).
+Qed.
 
 (* iter_pre is satisfiable by data in which a row is cut by candidate boundaries: both inputs hold a row over [1,4),
    the second also a unit row; at y = 2, 3 the early split of both inputs moves to 1 *)
